@@ -205,9 +205,11 @@ fn calc_single(ty: Intern<Ty>, ptr_ty: types::Type) {
             calc_single(*sub_ty, ptr_ty);
             sub_ty.get_final_ty()
         }
-        Ty::NaivePolymorphicFunction { .. } => {
-            unreachable!("these shouldn't get to codegen")
-        }
+        // A generic function referred to by name never exists as a value at runtime (calls go
+        // to its instantiations), but its type does show up in `all_tys` while a comptime block
+        // is evaluated in the middle of type inference, e.g. in a body that has only been
+        // inferred up to the callee of a generic call.
+        Ty::NaivePolymorphicFunction { .. } => FinalTy::Void,
         Ty::ConcreteFunction {
             param_tys,
             return_ty,
